@@ -131,8 +131,17 @@ func (t tree) candidates(pkg string) (sure map[string]bool, open map[string]bool
 	for _, f := range t.Files {
 		add(f)
 	}
+	// symlinks: the builtin has an undocumented include_symlinks flag (default False) while fs.Glob
+	// passes true; whether a symlink is returned is left open, it only must belong to the package.
+	linkSure := map[string]bool{}
+	realSure := sure
+	sure = linkSure
 	for l := range t.Links {
 		add(l)
+	}
+	sure = realSure
+	for l := range linkSure {
+		open[l] = true
 	}
 	return
 }
@@ -401,9 +410,14 @@ func expect(c globCase) expectation {
 				excluded = either
 			}
 		}
-		// the builtin always excludes the build file names (by base name)
-		if contains(buildFileNames, filepath.Base(r)) {
-			excluded = yes
+		// the builtin always appends the build file names to the excludes
+		for _, b := range buildFileNames {
+			m := excludeMatch(b, []string{b}, r)
+			if m == yes {
+				excluded = yes
+			} else if m == either && excluded == no {
+				excluded = either
+			}
 		}
 		switch {
 		case !c.Hidden && hiddenByDot(r):
@@ -452,22 +466,6 @@ func realGlob(pkg string, includes, excludes []string, hidden bool) (res globRes
 
 const regexChars = "(){}|^$"
 
-func regexCharName(c byte) string {
-	switch c {
-	case '(', ')':
-		return "paren"
-	case '{', '}':
-		return "brace"
-	case '|':
-		return "pipe"
-	case '^':
-		return "caret"
-	case '$':
-		return "dollar"
-	}
-	return "other"
-}
-
 // stripClasses removes [..] groups so that a ^ used for class negation is not mistaken for a literal.
 func stripClasses(p string) string {
 	var sb strings.Builder
@@ -492,7 +490,8 @@ func patternFeature(role, p string, psegs []string, r string, codeMatched bool) 
 		return role + "/plain-pattern-fails-to-match"
 	}
 	if k := strings.IndexAny(stripClasses(p), regexChars); k >= 0 {
-		return "doublestar/unescaped-regex-char-" + regexCharName(stripClasses(p)[k])
+		_ = k
+		return "doublestar/unescaped-regex-metachar"
 	}
 	n := strings.Split(r, "/")
 	if codeMatched {
@@ -915,7 +914,7 @@ func TestC21(t *testing.T) {
 	r.Assumes = []string{
 		"fs.Glob is entered as the builtin enters it: cwd = repo root, rootPath = package name, build file names appended to excludes, includeSymlinks = true",
 		"directories in the result are ignored (sources may be directories; the statement speaks of files)",
-		"`#x#` with hidden=False, excludes that literally name the file or a parent directory, trailing ** matching nothing, nested dirs called plz-out: either outcome accepted",
+		"symlinks (include_symlinks is undocumented), `#x#` with hidden=False, excludes that literally name the file or a parent directory, trailing ** matching nothing, nested dirs called plz-out: either outcome accepted",
 	}
 	scratch := r.Scratch()
 	if err := os.Chdir(scratch); err != nil {
@@ -953,8 +952,8 @@ func TestC21(t *testing.T) {
 				key := "error/defined-pattern-rejected"
 				for _, p := range append(append([]string(nil), c.Includes...), c.Excludes...) {
 					if strings.Contains(p, "**") && strings.Contains(res.err, p) {
-						if k := strings.IndexAny(stripClasses(p), regexChars); k >= 0 {
-							key = "doublestar/unescaped-regex-char-" + regexCharName(stripClasses(p)[k])
+						if strings.ContainsAny(stripClasses(p), regexChars) {
+							key = "doublestar/unescaped-regex-metachar"
 						}
 					}
 				}
@@ -979,11 +978,16 @@ func TestC21(t *testing.T) {
 		sort.Strings(names)
 		for _, n := range names {
 			full := join(c.Pkg, n)
+			if sure[n] || open[n] {
+				continue
+			}
 			if c.Tree.isDir(full) {
 				r.Obs("directories_returned_ignored", 1)
 				continue
 			}
-			if sure[n] || open[n] {
+			if n == "." || n == c.Pkg {
+				// the walk lists the package directory itself; it comes back untrimmed when a pattern matches it
+				r.Obs("package_directory_itself_returned_ignored", 1)
 				continue
 			}
 			// not one of the package's own files
